@@ -272,6 +272,58 @@ func (g *c16Gen) pickRule() c16RuleSpec {
 	return c16CWRule
 }
 
+const c16Marker = "metacontroller.k8s.io/decorator-controller"
+
+// unmarked: objects of an attachment kind that exist when the recorded rounds start (created after the
+// warm-up, so no earlier sync can have removed them) and fail exactly one recognition condition:
+// (a) controlled by the target, no annotations at all; (b) controlled by the target, annotations without
+// the marker key; (c) controlled by the target, another decorator's marker; (d) own marker, controlled by
+// somebody else.  No hook program ever lists their names (u-*), so a decorator that wrongly took one for
+// its own would report it and delete it.
+func (g *c16Gen) unmarked(sc *c16Scenario, rule c16RuleSpec, all bool) {
+	r := g.r
+	mk := func(name, ownerUID string, ann c16J) {
+		a := sc.Ctl.Attachments[r.Intn(len(sc.Ctl.Attachments))]
+		md := c16J{"name": name, "ownerReferences": c16A{c16J{"apiVersion": sc.Target["apiVersion"], "kind": sc.Target["kind"],
+			"name": "t1", "uid": ownerUID, "controller": true, "blockOwnerDeletion": true}}}
+		if a.Namespaced {
+			if rule.Namespaced {
+				md["namespace"] = "ns1"
+			} else {
+				md["namespace"] = "ns2"
+			}
+		}
+		if ann != nil {
+			md["annotations"] = ann
+		}
+		o := c16J{"apiVersion": a.APIVersion, "kind": a.Kind, "metadata": md}
+		if a.Kind == "ConfigMap" {
+			o["data"] = c16J{"k": "foreign"}
+		} else {
+			o["spec"] = c16J{"size": int64(77)}
+		}
+		sc.Setup = append(sc.Setup, c16ExtOp{Op: "create", Data: o})
+	}
+	pick := r.Intn(3)
+	if all || pick == 0 || pick == 2 {
+		mk("u-bare", c16TargetUID, nil)
+		sc.Features = append(sc.Features, "unmarked-no-annotations")
+	}
+	if all || pick == 1 || pick == 2 {
+		mk("u-ann", c16TargetUID, c16J{"made-by": "another-controller"})
+		sc.Features = append(sc.Features, "unmarked-other-annotations")
+	}
+	if all || r.Chance(1, 3) {
+		mk("u-othermarker", c16TargetUID, c16J{c16Marker: "someone-else"})
+		sc.Features = append(sc.Features, "lookalike-other-marker")
+	}
+	if all || r.Chance(1, 3) {
+		mk("u-otherowner", "uid-somebody", c16J{c16Marker: sc.Ctl.Name})
+		sc.Features = append(sc.Features, "lookalike-other-owner")
+	}
+	sc.Features = append(sc.Features, "unmarked-controlled-lookalike")
+}
+
 // basic: one decorator, one target, a response over the whole response space
 func (g *c16Gen) basic(family string, i int, seed uint64) *c16Scenario {
 	r := g.r
@@ -333,6 +385,9 @@ func (g *c16Gen) basic(family string, i int, seed uint64) *c16Scenario {
 		}
 		sc.Hook2 = &h2
 		sc.Features = append(sc.Features, "hook-changes-mind")
+	}
+	if r.Chance(2, 5) {
+		g.unmarked(sc, rule, false)
 	}
 	nr := 1 + r.Intn(3)
 	for j := 0; j < nr; j++ {
@@ -502,7 +557,17 @@ func (g *c16Gen) shared(i int, seed uint64) *c16Scenario {
 		}
 		sc.Features = append(sc.Features, "second-decorator")
 	}
-	// look-alikes
+	// look-alikes that are still there when the recorded rounds start
+	has := false
+	for _, f := range sc.Features {
+		if f == "unmarked-controlled-lookalike" {
+			has = true
+		}
+	}
+	if !has {
+		g.unmarked(sc, rule, true)
+	}
+	// look-alikes that exist from the start (the warm-up syncs see them too)
 	nl := r.Intn(4)
 	for j := 0; j < nl; j++ {
 		a := sc.Ctl.Attachments[r.Intn(len(sc.Ctl.Attachments))]
@@ -947,17 +1012,21 @@ func c16Corpus() []*c16Scenario {
 		}
 		return o
 	}
-	out = append(out, &c16Scenario{Family: "corpus", Features: []string{"corpus-shared-target", "second-decorator", "lookalike-no-marker", "lookalike-other-marker", "lookalike-other-owner", "ours-undesired"},
+	out = append(out, &c16Scenario{Family: "corpus", Features: []string{"corpus-shared-target", "second-decorator", "unmarked-controlled-lookalike", "unmarked-no-annotations", "unmarked-other-annotations", "lookalike-other-marker", "lookalike-other-owner", "ours-undesired"},
 		Ctl:    c16CtlSpec{Name: "corpus5", Rules: []c16RuleSpec{podRule}, Attachments: []c16AttSpec{inplaceCM}},
 		Other:  &c16CtlSpec{Name: "corpus5other", Rules: []c16RuleSpec{orule}, Attachments: []c16AttSpec{inplaceCM}},
 		Target: pod(c16J{"managed": "yes"}, c16J{"decorate": "yes"}, nil),
 		Objects: []c16J{
-			lookalike("f-nomarker", ref(c16TargetUID, true), nil),
-			lookalike("f-othermarker", ref(c16TargetUID, true), c16J{marker: "someone"}),
-			lookalike("f-otherowner", ref("uid-x", true), c16J{marker: "corpus5"}),
-			lookalike("f-plainref", ref(c16TargetUID, false), c16J{marker: "corpus5"}),
+			lookalike("f-early-nomarker", ref(c16TargetUID, true), nil),
 		},
-		Setup:     []c16ExtOp{{Op: "create", Data: lookalike("f-ours", ref(c16TargetUID, true), c16J{marker: "corpus5"})}},
+		Setup: []c16ExtOp{
+			{Op: "create", Data: lookalike("f-nomarker", ref(c16TargetUID, true), nil)},
+			{Op: "create", Data: lookalike("f-annotated-nomarker", ref(c16TargetUID, true), c16J{"made-by": "another-controller"})},
+			{Op: "create", Data: lookalike("f-othermarker", ref(c16TargetUID, true), c16J{marker: "someone"})},
+			{Op: "create", Data: lookalike("f-otherowner", ref("uid-x", true), c16J{marker: "corpus5"})},
+			{Op: "create", Data: lookalike("f-plainref", ref(c16TargetUID, false), c16J{marker: "corpus5"})},
+			{Op: "create", Data: lookalike("f-ours", ref(c16TargetUID, true), c16J{marker: "corpus5"})},
+		},
 		Hook:      c16HookProgram{Kind: "const", Labels: map[string]*string{"mine": c16Str("1")}, Attachments: []c16J{cm("a0", "", "1"), cm("a1", "", "1")}},
 		OtherHook: &c16HookProgram{Kind: "const", Labels: map[string]*string{"other-owned": c16Str("1")}, Attachments: []c16J{cm("b0", "", "1"), cm("a0", "", "other")}},
 		Hook2:     &c16HookProgram{Kind: "const", Labels: map[string]*string{"mine": c16Str("2")}, Attachments: []c16J{}},
